@@ -701,6 +701,82 @@ void World::table_check(const std::string& op, int64_t touched)
     }
 }
 
+// Everything the 2.x table API lets a caller see, as one digest: used by the C14 enumeration so that a partial
+// update in a table the track / crate API does not show (the change log, say) is still an observable difference.
+std::string World::table_digest()
+{
+    auto& T = *tstate;
+    auto tt = T.lib->track();
+    auto pt = T.lib->playlist();
+    auto et = T.lib->playlist_entity();
+    Hasher h;
+    auto guard = [&](const char* what, auto&& fn) {
+        Outcome o = call(FaultSpec{}, fn);
+        if (o.threw)
+            h.str(std::string("!") + what + ":" + o.exc);
+    };
+    guard("tracks", [&] {
+        auto ids = tt.all_ids();
+        std::sort(ids.begin(), ids.end());
+        for (auto id : ids)
+        {
+            h.u64((uint64_t)id);
+            auto row = tt.get(id);
+            if (!row)
+            {
+                h.str("-");
+                continue;
+            }
+            for (auto& c : columns())
+                if (c.min_range <= T.range)
+                    h.str(c.of(*row));
+            h.str(rv(row->last_edit_time));
+        }
+    });
+    guard("playlists", [&] {
+        auto ids = pt.all_ids();
+        std::sort(ids.begin(), ids.end());
+        for (auto id : ids)
+        {
+            auto row = pt.get(id);
+            if (!row)
+                continue;
+            h.u64((uint64_t)id);
+            h.str(row->title);
+            h.u64((uint64_t)row->parent_list_id);
+            h.u64(row->is_persisted);
+            h.u64((uint64_t)row->next_list_id);
+            h.str(rv(row->last_edit_time));
+            h.u64(row->is_explicitly_exported);
+            for (auto& e : et.get_for_list(id))
+            {
+                h.u64((uint64_t)e.id);
+                h.u64((uint64_t)e.track_id);
+                h.str(e.database_uuid);
+                h.u64((uint64_t)e.next_entity_id);
+                h.u64((uint64_t)e.membership_reference);
+            }
+        }
+    });
+    guard("change_log", [&] {
+        for (auto& r : T.lib->change_log().all())
+        {
+            h.u64((uint64_t)r.id);
+            h.u64((uint64_t)r.track_id);
+        }
+    });
+    guard("information", [&] {
+        auto i = T.lib->information().get();
+        h.u64((uint64_t)i.id);
+        h.u64((uint64_t)i.schema_version_major);
+        h.u64((uint64_t)i.schema_version_minor);
+        h.u64((uint64_t)i.schema_version_patch);
+        h.u64((uint64_t)i.current_played_indicator);
+        h.u64((uint64_t)i.last_rekord_box_library_import_read_counter);
+    });
+    return hex64(h.value());
+}
+
 void World::table_read_all()
 {
     auto& T = *tstate;
